@@ -6,16 +6,16 @@ def main():
     ctx = Ctx("C11", "exploration")
     ctx.rule = ("TLC enumerates the patterns of Match.tla over Cabinet(container, drawers): container = literal | nested match by "
                 "type (Container, supertype Body) and name | nothing; drawers = literal (membership) | nested match on the "
-                "elements' handle / container names | match_any(S) | match_all(S) | nothing - on a world with value-equal twins, "
+                "elements' handle / container names | a field the elements' value equality ignores | match_any(S) | match_all(S) | nothing - on a world with value-equal twins, "
                 "an empty collection and equal collections - plus type-filtering nested matches on a base-typed collection "
                 "(FruitBox.fruits: List[Body] with match(Apple)); with MatchSem for each. Every pattern is evaluated through "
-                "entity_matching in two domain orders, again after an in-place edit of a collection (same query object), and "
+                "entity_matching in two domain orders, again after an in-place edit of a collection (same query object), over an explicitly empty domain, and "
                 "with select(...) on the container and select(Drawer)(...) on the drawers collection, and once on the same world with "
                 "two falsy cabinets (objects whose __len__ is 0). Non-trivial = a pattern constraining at least one attribute with a "
                 "non-empty expected set; distinct by (pattern, order).")
     pats = [j for j in ctx.run_tlc("Match", "Match_gen.cfg", expect="ok").json_lines() if isinstance(j, dict) and "pc" in j]
-    if len(pats) != 161:
-        raise MachineryError(f"expected 161 patterns, got {len(pats)}")
+    if len(pats) != 170:
+        raise MachineryError(f"expected 170 patterns, got {len(pats)}")
     cases = []
     for p in pats:
         if p["pd"] == ["match", "*", "*"]:
@@ -41,6 +41,8 @@ def main():
         elif "exp2" in c and set(r.get("cabinets_after_edit", [])) != set(c["exp2"]):
             problems.append(f"after k2.drawers.append(d2) the same query matched {sorted(set(r.get('cabinets_after_edit', [])))}, "
                             f"pattern semantics say {sorted(c['exp2'])}")
+        if not problems and r.get("cabinets_empty_domain"):
+            problems.append(f"with an explicitly empty domain the pattern matched {r['cabinets_empty_domain']}")
         f02 = False
         if "selected" in r or "select_error" in r:
             got = {tuple(x) for x in r.get("selected", [])}
